@@ -440,7 +440,47 @@ func genC13(c *lp.Ctx) {
 }
 
 // genC14: typed integer getters agree with Get.
+// genC14empty: the typed getters on tries WITHOUT keys: built from the empty key list (every option spelling),
+// a fresh unloaded instance, after Reset, and the empty trie's own stream loaded.  Get answers (nil, false) for every
+// query; the typed getters must answer (0, false) — not panic.
+func genC14empty(c *lp.Ctx) {
+	encs := []string{"i8", "i16", "i32", "i64"}
+	qs := []string{"", "a", "\x00", "\xff\xff", "abc"}
+	for it := 0; it < c.Pick(24, 80); it++ {
+		enc := encs[it%4]
+		switch (it / 4) % 4 {
+		case 0:
+			c.Do("trie.new " + randFlags(c.Rng) + " " + enc)
+			c.Hit("empty:built-from-no-keys")
+		case 1:
+			c.Do("trie.fresh " + enc)
+			c.Hit("empty:fresh-instance")
+		case 2:
+			cs := NewCase(c.Rng, gen.Any(c.Rng, 40), "", enc)
+			c.Do(cs.Line())
+			c.Do("trie.reset")
+			c.Hit("empty:after-reset")
+		default:
+			c.Do("trie.new " + randFlags(c.Rng) + " " + enc)
+			c.Do("trie.reload")
+			c.Hit("empty:loaded-empty-stream")
+		}
+		c.Case(fmt.Sprintf("empty|%d", it), true)
+		for _, q := range qs {
+			x := lp.XS(q)
+			g := c.Do("trie.get " + x)
+			t := c.Do("trie.get" + enc + " " + x)
+			if g != "nf" || t != "nf 0" {
+				c.Violate(lp.Violation{What: "typed getter agrees with Get on a trie without keys", Script: []string{"(empty trie, encoder " + enc + ")", "trie.get" + enc + " " + x},
+					Expected: "nf / nf 0", Got: g + " / " + t})
+				break
+			}
+		}
+	}
+}
+
 func genC14(c *lp.Ctx) {
+	genC14empty(c)
 	n := c.Pick(300, 1000)
 	size := c.Pick(220, 1200)
 	encs := []string{"i8", "i16", "i32", "i64"}
